@@ -148,6 +148,7 @@ def gen_cases(tier, seed):
     else:
         cases += list(foldgen.random_cases(seed, 100000, depth=4))
     cases += list(foldgen.neighbour_cases())
+    cases += list(foldgen.interplay_cases())
     for c in cases:
         c['op'] = 'fold'
     return cases
@@ -168,7 +169,7 @@ def main(tier, seed):
             continue
         cs = cases
         if version != '3.12-venv' and tier == 'quick':
-            cs = [c for i, c in enumerate(cases) if (i + len(version) + seed) % 3 == 0]
+            cs = [c for i, c in enumerate(cases) if (i + len(version) + seed) % 3 == 0 or c.get('interplay')]
         st = {'cases': 0, 'folded': 0, 'violations': 0}
 
         def on_a(c, r, version=version, st=st):
@@ -178,6 +179,8 @@ def main(tier, seed):
                 out = r
             if r.get('status') == 'error':
                 out = {'status': 'inconclusive', 'reason': 'minify raised %s (routed to C08)' % (r.get('exc') or {}).get('type')}
+            if r.get('interplay_hoisted'):
+                run.count('interplay_folded_and_hoisted')
             if r.get('folded'):
                 st['folded'] += 1
                 run.nontrivial.add(version + '|' + c['expr'])
@@ -202,7 +205,7 @@ def main(tier, seed):
              'each interpreter, layer B = every fold decision recorded at FoldConstants.visit_BinOp re-evaluated independently; '
              'non-trivial/distinct = distinct (interpreter, expression) actually folded + distinct folded sub-expressions seen by the probe',
         assumptions=['eval() of the same interpreter is the reference semantics', 'ast.unparse (stdlib) prints the probe texts'],
-        extra={'interpreters': per}, min_nontrivial=100, required_counters=['folds_observed', 'safe_eval_calls'])
+        extra={'interpreters': per}, min_nontrivial=100, required_counters=['folds_observed', 'safe_eval_calls', 'interplay_folded_and_hoisted'])
 
 
 def replay(path):
